@@ -116,6 +116,8 @@ def spec_strategy(draw, tier):
             c = draw(strategies.tls_conn(max_records=5, max_len=400, ep=ep, bytes_mode_limit=0,
                                          delivery=strategies.tcp_delivery(modes=("rec", "rec", "cuts", "cuts", "flight"), wrap=True, dups=True, moves=True)))
             c["cert_len"] = min(c.get("cert_len", 300), 300)
+            if c.get("hs_frag"):
+                c["hs_frag"] = 256        # small certificates keep the captures short; a small fragment size still splits the flight over records
             c["tcp"]["mss"] = max(c["tcp"]["mss"], 536)
             c["tcp"]["acks"] = False
         else:
@@ -125,12 +127,35 @@ def spec_strategy(draw, tier):
     return {"conns": conns, "order": draw(st.lists(st.integers(0, 3), min_size=1, max_size=8)), "tseed": draw(st.integers(1, 500))}
 
 
+def late_handshake_specs():
+    """connection A's handshake (server flight fragmented over records, or not) lies behind the whole of connection B, in both
+    creation orders: cuts inside A's handshake must not touch what B already exported"""
+    out = []
+    i = 0
+    for va, vb in ((0x0303, 0x0303), (0x0304, 0x0303), (0x0303, 0x0304), (0x0304, 0x0304), (0x0301, 0x0303)):
+        for frag in (0, 256):
+            for first in (0, 1):
+                def conn(j, ver, hs_frag):
+                    suite = {0x0303: 0xC02F, 0x0304: 0x1301, 0x0301: 0x002F}[ver]
+                    return {"kind": "tls", "version": ver, "suite": suite, "seed": 8800 + 10 * i + j, "hs_frag": hs_frag, "cert_len": 400,
+                            "history": [[0, 40, 0], [1, 120, 0], [0, 7, 0]], "ep": scenario.default_ep(2 * i + j),
+                            "tcp": {"mode": "rec", "syn": bool(j), "acks": False, "mss": 1400, "isn_c": 100 + j, "isn_s": 900 + j}}
+                a, b_ = conn(0, va, frag), conn(1, vb, 0)
+                # order: A's first packet(s) [when A is created first], then all of B, then the rest of A
+                order = ([0] if first == 0 else []) + [1] * 40 + [0] * 60
+                out.append({"conns": [a, b_], "order": order, "tseed": 1 + i})
+                i += 1
+    return out
+
+
 def stages(tier):
     quick = tier == "quick"
-    return [Stage("all-cuts", evaluate, strategy=lambda t: spec_strategy(t), examples=240 if quick else 4000, shrink=False)]
+    return [Stage("late-handshake-behind-a-complete-connection", evaluate, specs=late_handshake_specs()),
+            Stage("all-cuts", evaluate, strategy=lambda t: spec_strategy(t), examples=240 if quick else 4000, shrink=False)]
 
 
-RULE = ("captures of 1-3 TLS/QUIC connections with retransmitted and (causally) displaced TCP segments (cuts inside handshakes, inside records spanning packets, between coalesced flights and after key "
+RULE = ("stage late-handshake-behind-a-complete-connection: two TLS connections, one complete before the other's (fragmented or plain) handshake, "
+        "both creation orders; stage all-cuts: captures of 1-3 TLS/QUIC connections with retransmitted and (causally) displaced TCP segments (cuts inside handshakes, inside records spanning packets, between coalesced flights and after key "
         "changes arise because EVERY cut position k = 0..N of each capture is run); metamorphic chain: E(k) (per connection: per-direction byte "
         "stream for TLS, datagram list for QUIC) is a prefix of E(k+1), E(k) is a prefix of the ground truth, E(N) equals it.  Non-trivial: the "
         "chain has >= 3 distinct values and a cut falls strictly inside a TLS record that spans packets (or the capture has a QUIC connection); "
